@@ -19,15 +19,20 @@ LEVEL = "model_checking"
 def denote(spec, bars):
     """Set of bar timestamps on which the trigger must fire, from the specification alone."""
     kind = spec["kind"]
+    if not bars:
+        return set()
     b0 = bars[0]
+
+    def fl(t):  # times are meant to the minute: seconds and fractions of a second are dropped
+        return t.replace(second=0, microsecond=0)
     if kind == "at":
-        return {b for b in bars if b == spec["time"]}
+        return {b for b in bars if b == fl(spec["time"])}
     if kind == "ats":
-        return {b for b in bars if b in spec["times"]}
+        return {b for b in bars if b in [fl(t) for t in spec["times"]]}
     if kind == "range":
-        return {b for b in bars if spec["start"] <= b < spec["end"]}
+        return {b for b in bars if fl(spec["start"]) <= b < fl(spec["end"])}
     if kind == "ranges":
-        return {b for b in bars if any(s <= b < e for s, e in spec["ranges"])}
+        return {b for b in bars if any(fl(s) <= b < fl(e) for s, e in spec["ranges"])}
     if kind in ("period", "periods"):
         deltas = [spec["delta"]] if kind == "period" else spec["deltas"]
         out = set()
@@ -116,17 +121,29 @@ def run_case(grid, specs):
             fired[i].append((snapshot.timestamp, dict(kw)))
         return do
 
+    trigs.extend([None] * len(specs))
+
+    def register(strategy, i):
+        t = build(specs[i], mk_do(i))
+        trigs[i] = t
+        strategy.triggers.append(t)
+
     def init(strategy, _):
         for i, s in enumerate(specs):
-            t = build(s, mk_do(i))
-            trigs.append(t)
-            strategy.triggers.append(t)
+            if s.get("register_at") is None:
+                register(strategy, i)
+
+    def late(strategy, snapshot):
+        # a strategy may register a trigger while it runs (here from on_bar); it is first evaluated on the following bar
+        for i, s in enumerate(specs):
+            if s.get("register_at") == snapshot.row_id:
+                register(strategy, i)
 
     def after(strategy, snapshot):
         for i, t in enumerate(trigs):
-            present[i].append(any(x is t for x in strategy.triggers))
+            present[i].append(None if t is None else any(x is t for x in strategy.triggers))
 
-    st = Scripted({("initialize", -1): [init], ("after_bar", "*"): [after]})
+    st = Scripted({("initialize", -1): [init], ("on_bar", "*"): [late], ("after_bar", "*"): [after]})
     act = make_actuator([market], [(uni.USDC, 1000), (uni.WETH, 1)], st, market.get_price_from_data(),
                         interval=f"{interval}min")
     err = None
@@ -148,7 +165,7 @@ def judge(part: Part, grid, specs):
         return
     for i, s in enumerate(specs):
         part.count("trigger_evaluations")
-        want = denote(s, bars)
+        want = denote(s, bars if s.get("register_at") is None else bars[s["register_at"] + 1:])
         got_list = [t for t, _ in fired[i]]
         got = set(got_list)
         tag = s["kind"] + ("" if len(specs) == 1 else "|paired")
@@ -169,6 +186,8 @@ def judge(part: Part, grid, specs):
                 break
         # retirement: once missing after bar j, no denoted bar may lie after j
         for j, here in enumerate(present[i]):
+            if here is None:
+                continue  # not registered yet
             if not here:
                 later = [b for b in want if b > bars[j]]
                 if later:
@@ -241,6 +260,24 @@ def cases_for(grid, thorough):
                 out.append([{"kind": "periods", "deltas": [d1, d2], "pending": p, "immediate": im, "kwargs": kw}])
     out.append([{"kind": "periods", "deltas": [s, 2 * s, 3 * s], "pending": timedelta(0), "immediate": False}])
     out.append([{"kind": "periods", "deltas": [2 * s], "pending": s, "immediate": True}])
+    # times carrying seconds / fractions of a second (e.g. datetime.now(), parsed ISO strings) mean the minute they lie in
+    frac = timedelta(seconds=30, microseconds=500000)
+    out.append([{"kind": "at", "time": bars[1] + frac, "kwargs": kw}])
+    out.append([{"kind": "at", "time": bars[n // 2] + timedelta(microseconds=7), "kwargs": kw}])
+    out.append([{"kind": "ats", "times": [bars[0] + frac, bars[2] + timedelta(microseconds=1), bars[-1]], "kwargs": kw}])
+    out.append([{"kind": "range", "start": bars[1] + frac, "end": bars[3] + timedelta(microseconds=250), "kwargs": kw}])
+    out.append([{"kind": "ranges", "ranges": [(bars[0] + timedelta(microseconds=9), bars[1] + frac), (bars[2] + frac, bars[4])], "kwargs": kw}])
+    # a trigger registered while the run is under way, after another one has retired
+    early = {"kind": "at", "time": bars[1], "kwargs": {"k": 0}}
+    for late_spec in ({"kind": "period", "delta": 2 * s, "pending": timedelta(0), "immediate": False, "kwargs": {"k": 7}},
+                      {"kind": "period", "delta": s, "pending": s, "immediate": True, "kwargs": {"k": 7}},
+                      {"kind": "range", "start": bars[min(4, n - 2)], "end": bars[-1], "kwargs": {"k": 8}},
+                      {"kind": "at", "time": bars[-1], "kwargs": {"k": 9}},
+                      {"kind": "ats", "times": [bars[min(4, n - 1)], bars[-1]], "kwargs": {"k": 9}}):
+        for reg in (0, 2, 3):
+            if reg + 1 < n:
+                out.append([dict(early), dict(late_spec, register_at=reg)])
+                out.append([dict(late_spec, register_at=reg)])
     # two triggers at once: one representative of each kind, all ordered pairs
     reps = [
         {"kind": "at", "time": bars[1], "kwargs": {"k": 1}},
